@@ -21,7 +21,8 @@ def all_groups():
     gs += groups_parsetail.groups()
     # C18 (sequential half): the frame obligations of EVERY function under contract - see framework.attributed
     for g in gs:
-        if 'C18' not in g.props and not g.name.endswith('_layout'):
+        # (the slices of Theo::parse, parseB_*, are attributed to C15 only for now: DESIGN 10.5, continuation session)
+        if 'C18' not in g.props and not g.name.endswith('_layout') and not g.name.startswith('parseB_'):
             g.props = list(g.props) + ['C18']
     gs += groups_static.groups()
     return gs
